@@ -50,7 +50,7 @@ func init() {
 
 func xs(b []byte) string { return "x" + hex.EncodeToString(b) }
 
-func seqBytes(n int, start byte) []byte {
+func protoSeqBytes(n int, start byte) []byte {
 	b := make([]byte, n)
 	for i := range b {
 		b[i] = start + byte(i)
@@ -101,7 +101,7 @@ func (p ip6) term() string {
 		p.hbh, p.rt, p.fr, p.data)
 }
 func baseIP6() ip6 {
-	return ip6{ver: 6, tc: 0xa5, fl: 0x12345, length: 8, nh: 17, hl: 64, src: seqBytes(16, 0x20), dst: seqBytes(16, 0x40),
+	return ip6{ver: 6, tc: 0xa5, fl: 0x12345, length: 8, nh: 17, hl: 64, src: protoSeqBytes(16, 0x20), dst: protoSeqBytes(16, 0x40),
 		hbh: "~", rt: "~", fr: "~", data: tUDP(1, 2, 8, 3, nil)}
 }
 func tOpt(ty, ln int, data []byte) string { return fmt.Sprintf("p.Option(%d,%d,%s)", ty, ln, xs(data)) }
@@ -168,7 +168,7 @@ func (d dhcp) term() string {
 }
 func baseDHCP() dhcp {
 	return dhcp{op: 1, ht: 1, hl: 6, ho: 2, xid: 0x11223344, secs: 0x0506, flags: 0x8000, cip: []byte{1, 2, 3, 4}, yip: []byte{5, 6, 7, 8},
-		sip: []byte{9, 10, 11, 12}, gip: []byte{13, 14, 15, 16}, hw: seqBytes(6, 0xa0), sname: []byte("srv"), file: []byte("boot")}
+		sip: []byte{9, 10, 11, 12}, gip: []byte{13, 14, 15, 16}, hw: protoSeqBytes(6, 0xa0), sname: []byte("srv"), file: []byte("boot")}
 }
 
 // wire form of a DHCP header (240 bytes) followed by opts
@@ -178,10 +178,10 @@ func dhcpWire(hl byte, magic uint32, opts []byte) []byte {
 	binary.BigEndian.PutUint32(b[4:], 0xcafebabe)
 	binary.BigEndian.PutUint16(b[8:], 0x0102)
 	binary.BigEndian.PutUint16(b[10:], 0x8000)
-	copy(b[12:], seqBytes(16, 0x10))
-	copy(b[28:], seqBytes(16, 0xb0))
-	copy(b[44:], seqBytes(64, 0x01))
-	copy(b[108:], seqBytes(128, 0x41))
+	copy(b[12:], protoSeqBytes(16, 0x10))
+	copy(b[28:], protoSeqBytes(16, 0xb0))
+	copy(b[44:], protoSeqBytes(64, 0x01))
+	copy(b[108:], protoSeqBytes(128, 0x41))
 	binary.BigEndian.PutUint32(b[236:], magic)
 	return append(b, opts...)
 }
@@ -299,7 +299,7 @@ func genProto(c *Ctx) {
 
 func genBufferVLAN(c *Ctx) {
 	for _, n := range []int{0, 1, 3, 40} {
-		c.encDecP("u.Buffer", tBuf(seqBytes(n, 1)))
+		c.encDecP("u.Buffer", tBuf(protoSeqBytes(n, 1)))
 	}
 	c.run("prog", "b=u.NewBuffer(x);!b")
 	c.run("prog", "b=u.NewBuffer(x0102030405);!b")
@@ -353,13 +353,13 @@ var mapped4 = append(append(make([]byte, 10), 0xff, 0xff), 192, 168, 1, 9)
 
 func ipVariants() [][]byte {
 	return [][]byte{
-		{10, 0, 0, 1}, mapped4, seqBytes(16, 0x20), nil, {1, 2, 3}, {1, 2, 3, 4, 5}, seqBytes(20, 1),
+		{10, 0, 0, 1}, mapped4, protoSeqBytes(16, 0x20), nil, {1, 2, 3}, {1, 2, 3, 4, 5}, protoSeqBytes(20, 1),
 		append(append(make([]byte, 10), 0xff, 0xfe), 1, 2, 3, 4), append(append([]byte{0, 0, 0, 0, 0, 0, 0, 0, 0, 1}, 0xff, 0xff), 1, 2, 3, 4),
 	}
 }
 
 func genLeaves(c *Ctx) {
-	mac1, mac2 := seqBytes(6, 0x11), seqBytes(6, 0x21)
+	mac1, mac2 := protoSeqBytes(6, 0x11), protoSeqBytes(6, 0x21)
 	// ARP
 	c.encDecP("p.ARP", tARP(1, 0x800, 6, 4, 1, mac1, []byte{10, 0, 0, 1}, mac2, []byte{10, 0, 0, 2}))
 	c.encDecP("p.ARP", tARP(0xffff, 0xfffe, 6, 4, 0xfffd, mac1, mapped4, mac2, mapped4))
@@ -375,7 +375,7 @@ func genLeaves(c *Ctx) {
 			c.run("enc", tARP(1, 0x800, hl, pl, 1, mac1, []byte{10, 0, 0, 1}, mac2, []byte{10, 0, 0, 2}))
 		}
 	}
-	c.encD("p.ARP", tARP(1, 0x800, 8, 4, 1, seqBytes(8, 1), []byte{10, 0, 0, 1}, seqBytes(3, 1), []byte{10, 0, 0, 2}))
+	c.encD("p.ARP", tARP(1, 0x800, 8, 4, 1, protoSeqBytes(8, 1), []byte{10, 0, 0, 1}, protoSeqBytes(3, 1), []byte{10, 0, 0, 2}))
 	// hostile ARP frames: HWLength / ProtoLength 0, 1, max, wrap-around, with short and long tails
 	for _, hl := range []int{0, 1, 5, 6, 7, 127, 128, 255} {
 		for _, pl := range []int{0, 1, 3, 4, 5, 128, 255} {
@@ -383,7 +383,7 @@ func genLeaves(c *Ctx) {
 			need := 2*hl + 2*pl
 			for _, tail := range []int{0, need - 1, need, need + 3} {
 				if tail >= 0 && tail <= 1100 {
-					c.dec2("p.ARP", cat(hdr, seqBytes(tail, 0x30)))
+					c.dec2("p.ARP", cat(hdr, protoSeqBytes(tail, 0x30)))
 				}
 			}
 		}
@@ -397,25 +397,25 @@ func genLeaves(c *Ctx) {
 	// ICMP
 	for _, n := range counts {
 		if n == 0 || n == 3 {
-			c.encDecP("p.ICMP", tICMP(8, 0, 0xf7ff, seqBytes(n, 0x61)))
+			c.encDecP("p.ICMP", tICMP(8, 0, 0xf7ff, protoSeqBytes(n, 0x61)))
 		} else {
-			c.encD("p.ICMP", tICMP(8, 0, 0xf7ff, seqBytes(n, 0x61)))
+			c.encD("p.ICMP", tICMP(8, 0, 0xf7ff, protoSeqBytes(n, 0x61)))
 		}
 	}
-	c.encD("p.ICMP", tICMP(255, 254, 0xffff, seqBytes(64, 0)))
-	c.encD("p.ICMP", tICMP(0, 1, 1, seqBytes(1500, 0)))
+	c.encD("p.ICMP", tICMP(255, 254, 0xffff, protoSeqBytes(64, 0)))
+	c.encD("p.ICMP", tICMP(0, 1, 1, protoSeqBytes(1500, 0)))
 	c.run("prog", "i=p.NewICMP();!i")
 	c.run("prog", "i=p.NewICMP();$i.UnmarshalBinary(x0800f7ff0102);$i.UnmarshalBinary(x00000000);!i")
 
 	// UDP
 	for _, n := range counts {
 		if n == 0 || n == 3 {
-			c.encDecP("p.UDP", tUDP(53, 0x1122, 8+n, 0xfffe, seqBytes(n, 0x41)))
+			c.encDecP("p.UDP", tUDP(53, 0x1122, 8+n, 0xfffe, protoSeqBytes(n, 0x41)))
 		} else {
-			c.encD("p.UDP", tUDP(53, 0x1122, 8+n, 0xfffe, seqBytes(n, 0x41)))
+			c.encD("p.UDP", tUDP(53, 0x1122, 8+n, 0xfffe, protoSeqBytes(n, 0x41)))
 		}
 	}
-	c.encD("p.UDP", tUDP(65535, 0, 0, 65535, seqBytes(100, 0)))
+	c.encD("p.UDP", tUDP(65535, 0, 0, 65535, protoSeqBytes(100, 0)))
 	c.run("prog", "u=p.NewUDP();!u")
 	// UnmarshalBinary APPENDS to an existing payload
 	c.run("prog", "u=p.NewUDP();$u.UnmarshalBinary(x0001000200090000aa);$u.UnmarshalBinary(x000300040009ffffbbcc);!u")
@@ -423,9 +423,9 @@ func genLeaves(c *Ctx) {
 
 	// TCP: byte 12 = HdrLen<<4 & 0xf0, byte 13 = Code & 0x3f — every value of both fields
 	for _, n := range []int{0, 3} {
-		c.encDecP("p.TCP", tTCP(80, 0x1234, 0x01020304, 0xa1a2a3a4, 5, 0x12, 0x2000, 0xbeef, 7, seqBytes(n, 0x71)))
+		c.encDecP("p.TCP", tTCP(80, 0x1234, 0x01020304, 0xa1a2a3a4, 5, 0x12, 0x2000, 0xbeef, 7, protoSeqBytes(n, 0x71)))
 	}
-	c.encD("p.TCP", tTCP(65535, 65534, 0xffffffff, 0xfffffffe, 15, 63, 65535, 65535, 65535, seqBytes(40, 0)))
+	c.encD("p.TCP", tTCP(65535, 65534, 0xffffffff, 0xfffffffe, 15, 63, 65535, 65535, 65535, protoSeqBytes(40, 0)))
 	for v := 0; v < 256; v++ {
 		c.run("enc", tTCP(1, 2, 3, 4, v, 255-v, 5, 6, 7, nil))
 		c.run("enc", tTCP(1, 2, 3, 4, 255, v, 5, 6, 7, nil))
@@ -482,7 +482,7 @@ func genIGMP(c *Ctx) {
 			c.run("enc", tV3Q(0x11, 100, 0, grp, 0, 0, 0, 0, ns, srcList(n)))
 		}
 		for _, tail := range []int{0, 4, 8, 40} {
-			c.dec2("p.IGMPv3Query", cat([]byte{0x11, 100, 0, 0}, grp, []byte{0x0a, 125}, be16b(ns), seqBytes(tail, 0x50)))
+			c.dec2("p.IGMPv3Query", cat([]byte{0x11, 100, 0, 0}, grp, []byte{0x0a, 125}, be16b(ns), protoSeqBytes(tail, 0x50)))
 		}
 	}
 	for _, ip := range ipVariants() {
@@ -509,15 +509,15 @@ func genIGMP(c *Ctx) {
 		for _, aux := range []int{0, 1, 2, 255} {
 			c.run("enc", tGR(4, aux, ns, grp, srcList(2), []uint32{7}))
 			for _, tail := range []int{0, 4, 8, 16} {
-				c.dec2("p.IGMPv3GroupRecord", cat([]byte{4, byte(aux)}, be16b(ns), grp, seqBytes(tail, 0x60)))
+				c.dec2("p.IGMPv3GroupRecord", cat([]byte{4, byte(aux)}, be16b(ns), grp, protoSeqBytes(tail, 0x60)))
 			}
 		}
 	}
 	// 8 + 4*aux + 4*ns wrapping to a small value
 	c.run("enc", tGR(4, 255, 16127, grp, srcList(1), nil))
 	c.run("enc", tGR(4, 254, 16128, grp, srcList(1), nil))
-	c.dec2("p.IGMPv3GroupRecord", cat([]byte{4, 255}, be16b(16127), grp, seqBytes(32, 0x60)))
-	c.dec2("p.IGMPv3GroupRecord", cat([]byte{4, 254}, be16b(16128), grp, seqBytes(32, 0x60)))
+	c.dec2("p.IGMPv3GroupRecord", cat([]byte{4, 255}, be16b(16127), grp, protoSeqBytes(32, 0x60)))
+	c.dec2("p.IGMPv3GroupRecord", cat([]byte{4, 254}, be16b(16128), grp, protoSeqBytes(32, 0x60)))
 	for _, ip := range ipVariants() {
 		c.run("enc", tGR(1, 0, 2, ip, [][]byte{ip, {1, 2, 3, 4}}, nil))
 	}
@@ -558,7 +558,7 @@ func optsOfLen(k int) ([]string, []byte) {
 	var ts []string
 	var bs []byte
 	for i := 0; i < k; i++ {
-		d := seqBytes(i+1, byte(0x10*(i+1)))
+		d := protoSeqBytes(i+1, byte(0x10*(i+1)))
 		ts = append(ts, tOpt(1+i, len(d), d))
 		bs = append(bs, byte(1+i), byte(len(d)))
 		bs = append(bs, d...)
@@ -571,12 +571,12 @@ func genExtHeaders(c *Ctx) {
 	c.encDecP("p.Option", tOpt(1, 4, []byte{1, 2, 3, 4}))
 	c.encDecP("p.Option", tOpt(0, 0, nil))
 	for _, ln := range []int{0, 1, 2, 3, 127, 128, 252, 253, 254, 255} {
-		c.run("enc", tOpt(5, ln, seqBytes(ln, 1)))
+		c.run("enc", tOpt(5, ln, protoSeqBytes(ln, 1)))
 		c.run("enc", tOpt(5, ln, []byte{9}))
-		c.run("enc", tOpt(5, ln, seqBytes(300, 1)))
+		c.run("enc", tOpt(5, ln, protoSeqBytes(300, 1)))
 		for _, tail := range []int{0, 1, ln - 1, ln, ln + 1, 300} {
 			if tail >= 0 {
-				c.dec2("p.Option", cat([]byte{5, byte(ln)}, seqBytes(tail, 0x70)))
+				c.dec2("p.Option", cat([]byte{5, byte(ln)}, protoSeqBytes(tail, 0x70)))
 			}
 		}
 	}
@@ -598,7 +598,7 @@ func genExtHeaders(c *Ctx) {
 	c.run("enc", tHbh(17, 1, []string{"~"}))
 	c.run("enc", tHbh(17, 1, []string{tOpt(1, 254, nil)}))
 	c.run("enc", tHbh(17, 1, []string{tOpt(1, 255, nil), tOpt(2, 1, []byte{7})}))
-	c.run("enc", tHbh(17, 63, []string{tOpt(1, 250, seqBytes(250, 0)), tOpt(2, 250, seqBytes(250, 1))}))
+	c.run("enc", tHbh(17, 63, []string{tOpt(1, 250, protoSeqBytes(250, 0)), tOpt(2, 250, protoSeqBytes(250, 1))}))
 	for _, hel := range []int{0, 1, 2, 127, 254, 255} {
 		for _, first := range [][]byte{{1, 4, 0, 0, 0, 0}, {0, 0, 1, 2, 0, 0}, {1, 5, 0, 0, 0, 0}, {1, 3, 0, 0, 0, 0}, {1, 253, 0, 0, 0, 0}, {1, 255, 0, 0, 0, 0}} {
 			for _, total := range []int{2, 7, 8, 16, 8 * (hel + 1) % 2048, 8*(hel+1)%2048 + 5} {
@@ -631,18 +631,18 @@ func genExtHeaders(c *Ctx) {
 		if hel > 0 {
 			hel--
 		}
-		c.encDecP("p.RoutingHeader", tRt(6, hel, 2, 1, tBuf(seqBytes(n, 0x31))))
+		c.encDecP("p.RoutingHeader", tRt(6, hel, 2, 1, tBuf(protoSeqBytes(n, 0x31))))
 	}
 	c.run("enc", tRt(6, 0, 0, 0, "~"))
 	c.run("enc", tRt(6, 255, 0, 0, tBuf(nil)))
-	c.run("enc", tRt(6, 254, 3, 4, tBuf(seqBytes(5, 1))))
-	c.run("enc", tRt(6, 0, 3, 4, tBuf(seqBytes(50, 1))))
+	c.run("enc", tRt(6, 254, 3, 4, tBuf(protoSeqBytes(5, 1))))
+	c.run("enc", tRt(6, 0, 3, 4, tBuf(protoSeqBytes(50, 1))))
 	for _, hel := range []int{0, 1, 2, 127, 254, 255} {
 		for _, total := range []int{2, 3, 4, 7, 8, 9, 16, 24, 8 * (hel + 1) % 2048, 8*(hel+1)%2048 + 5} {
 			if total < 2 {
 				continue
 			}
-			b := seqBytes(total, 0x80)
+			b := protoSeqBytes(total, 0x80)
 			b[0], b[1] = 44, byte(hel)
 			c.dec2("p.RoutingHeader", b)
 		}
@@ -690,9 +690,9 @@ func payloads() []payload {
 	ip6 := baseIP6()
 	return []payload{
 		{"nil", 0, -1, "~"},
-		{"buffer", 0x9999, 99, tBuf(seqBytes(5, 0xd0))},
+		{"buffer", 0x9999, 99, tBuf(protoSeqBytes(5, 0xd0))},
 		{"buffer0", 0x9999, 99, tBuf(nil)},
-		{"arp", 0x0806, -1, tARP(1, 0x800, 6, 4, 1, seqBytes(6, 1), []byte{10, 0, 0, 1}, seqBytes(6, 7), []byte{10, 0, 0, 2})},
+		{"arp", 0x0806, -1, tARP(1, 0x800, 6, 4, 1, protoSeqBytes(6, 1), []byte{10, 0, 0, 1}, protoSeqBytes(6, 7), []byte{10, 0, 0, 2})},
 		{"ipv4", 0x0800, 4, ip.term()},
 		{"ipv6", 0x86dd, 41, ip6.term()},
 		{"icmp", 0, 1, tICMP(8, 0, 0x1234, []byte{1, 2, 3})},
@@ -707,7 +707,7 @@ func payloads() []payload {
 		{"hbh", 0, 0, tHbh(17, 0, []string{tOpt(1, 4, []byte{1, 2, 3, 4})})},
 		{"routing", 0, 43, tRt(17, 0, 1, 2, tBuf([]byte{1, 2, 3, 4}))},
 		{"fragment", 0, 44, tFrag(17, 0, 5, 1, 77)},
-		{"ethernet", 0x6558, 97, tEth(0, seqBytes(6, 1), seqBytes(6, 2), tVLAN(0, 0, 0, 0), 0x1111, tBuf([]byte{0xee}))},
+		{"ethernet", 0x6558, 97, tEth(0, protoSeqBytes(6, 1), protoSeqBytes(6, 2), tVLAN(0, 0, 0, 0), 0x1111, tBuf([]byte{0xee}))},
 		// IPv4 with IHL 0 inside a container: Len() repairs it there too
 		{"ipv4-ihl0", 0x0800, 4, ip4{ver: 4, ttl: 1, proto: 17, src: []byte{1, 1, 1, 1}, dst: []byte{2, 2, 2, 2}, data: "~"}.term()},
 	}
@@ -729,7 +729,7 @@ func genIPv4(c *Ctx) {
 	for _, pp := range []struct {
 		proto int
 		data  string
-	}{{1, icmp}, {6, tcp}, {17, udp}, {89, tBuf(seqBytes(6, 0xc0))}} {
+	}{{1, icmp}, {6, tcp}, {17, udp}, {89, tBuf(protoSeqBytes(6, 0xc0))}} {
 		p := baseIP4()
 		p.proto, p.data = pp.proto, pp.data
 		c.encDecP("p.IPv4", p.term())
@@ -752,7 +752,7 @@ func genIPv4(c *Ctx) {
 	for _, ol := range []int{0, 1, 4, 8, 39, 40, 41, 44} {
 		for _, ihl := range []int{0, 5, 5 + (ol+3)/4, 15} {
 			p := baseIP4()
-			p.opts, p.ihl, p.data = seqBytes(ol, 0x90), ihl, udp
+			p.opts, p.ihl, p.data = protoSeqBytes(ol, 0x90), ihl, udp
 			if ihl == 5+(ol+3)/4 && ol == 4 {
 				c.encDecP("p.IPv4", p.term())
 			} else {
@@ -771,7 +771,7 @@ func genIPv4(c *Ctx) {
 		}
 	}
 	for _, v := range []int{16, 17, 31, 32, 63, 64, 65, 66, 68, 69, 127, 128, 129, 133, 192, 193, 254, 255} {
-		for _, d := range []string{"~", udp, tBuf(seqBytes(30, 1))} {
+		for _, d := range []string{"~", udp, tBuf(protoSeqBytes(30, 1))} {
 			p := baseIP4()
 			p.ihl, p.data = v, d
 			c.run("enc", p.term())
@@ -816,7 +816,7 @@ func genIPv4(c *Ctx) {
 		c.run("enc", p.term())
 	}
 	// decoder: every first byte (IHL < 5 panics on data[20:IHL*4]) and every second byte; 60 bytes available
-	body := seqBytes(48, 0xc0)
+	body := protoSeqBytes(48, 0xc0)
 	for v := 0; v < 256; v++ {
 		c.decCase("dec", "p.IPv4", ip4Wire(byte(v), 0, 0x4000, 17, nil, body), 0)
 		c.decCase("dec", "p.IPv4", ip4Wire(0x45, byte(v), 0x4000, 6, nil, body[:4]), 0)
@@ -832,7 +832,7 @@ func genIPv4(c *Ctx) {
 				protos = []byte{1, 17, 6}
 			}
 			for _, proto := range protos {
-				b := ip4Wire(byte(0x40|ihl), 0, 0, proto, nil, seqBytes(avail-20, 0x50))
+				b := ip4Wire(byte(0x40|ihl), 0, 0, proto, nil, protoSeqBytes(avail-20, 0x50))
 				c.dec2("p.IPv4", b)
 			}
 		}
@@ -859,7 +859,7 @@ func ip6Wire(w0 uint32, nh byte, body []byte) []byte {
 	binary.BigEndian.PutUint32(h, w0)
 	binary.BigEndian.PutUint16(h[4:], uint16(len(body)))
 	h[6], h[7] = nh, 64
-	return cat(h, seqBytes(16, 0x20), seqBytes(16, 0x40), body)
+	return cat(h, protoSeqBytes(16, 0x20), protoSeqBytes(16, 0x40), body)
 }
 func hbhWire(next, hel byte, opts []byte) []byte {
 	b := make([]byte, 8*(int(hel)+1))
@@ -868,7 +868,7 @@ func hbhWire(next, hel byte, opts []byte) []byte {
 	return b
 }
 func rtWire(next, hel byte) []byte {
-	b := seqBytes(8*(int(hel)+1), 0x30)
+	b := protoSeqBytes(8*(int(hel)+1), 0x30)
 	b[0], b[1] = next, hel
 	return b
 }
@@ -902,7 +902,7 @@ func genIPv6(c *Ctx) {
 	}{
 		{17, udp, []byte{0, 68, 0, 67, 0, 12, 0x11, 0x11, 1, 2, 3, 4}},
 		{58, tICMP(128, 0, 0x2222, []byte{5, 6}), []byte{128, 0, 0x22, 0x22, 5, 6}},
-		{6, tBuf(seqBytes(6, 0xc0)), seqBytes(6, 0xc0)},
+		{6, tBuf(protoSeqBytes(6, 0xc0)), protoSeqBytes(6, 0xc0)},
 	}
 	for i, f := range finals {
 		p := baseIP6()
@@ -950,7 +950,7 @@ func genIPv6(c *Ctx) {
 			p.hbh = tHbh(nx, hel, ots)
 		}
 		if nx, ok := nextOf[43]; ok {
-			p.rt = tRt(nx, 1, 0, 2, tBuf(seqBytes(12, 0x31)))
+			p.rt = tRt(nx, 1, 0, 2, tBuf(protoSeqBytes(12, 0x31)))
 		}
 		if nx, ok := nextOf[44]; ok {
 			p.fr = tFrag(nx, 0, 0x123, 1, 0x0a0b0c0d)
@@ -1062,7 +1062,7 @@ func genIPv6(c *Ctx) {
 	for _, hel := range []byte{0, 1, 2, 31, 254, 255} {
 		for _, tail := range []int{0, 1, 2, 8, 16, 300} {
 			for _, nx := range []byte{17, 0, 43, 44} {
-				b := seqBytes(tail, 0)
+				b := protoSeqBytes(tail, 0)
 				if tail > 0 {
 					b[0] = nx
 				}
@@ -1096,7 +1096,7 @@ func genIPv6(c *Ctx) {
 	big2[3] = 255
 	c.decCase("dec", "p.IPv6", ip6Wire(0x60000000, 0, big2), 0)
 	for _, ol := range []byte{0, 1, 3, 4, 5, 100, 253} {
-		c.dec2("p.IPv6", ip6Wire(0x60000000, 0, cat([]byte{17, 0, 1, ol, 9, 9, 9, 9}, seqBytes(8, 1))))
+		c.dec2("p.IPv6", ip6Wire(0x60000000, 0, cat([]byte{17, 0, 1, ol, 9, 9, 9, 9}, protoSeqBytes(8, 1))))
 	}
 	// the receiver's extension headers survive when the new packet has none
 	c.run("prog", "i=p.IPv6(6,0,0,0,0,0,x,x,p.HopByHopHeader(17,0,[]),~,p.FragmentHeader(17,0,0,0,1),~);$i.UnmarshalBinary(x"+
@@ -1106,7 +1106,7 @@ func genIPv6(c *Ctx) {
 // ---- Ethernet ---------------------------------------------------------------------------------------
 
 func genEthernet(c *Ctx) {
-	dst, src := seqBytes(6, 0xd1), seqBytes(6, 0x51)
+	dst, src := protoSeqBytes(6, 0xd1), protoSeqBytes(6, 0x51)
 	vlans := []string{tVLAN(0x8100, 0, 0, 0), tVLAN(0x8100, 3, 1, 5), tVLAN(0x8100, 7, 1, 0), tVLAN(0x88a8, 0, 0, 4095), tVLAN(0, 0, 0, 1)}
 	for _, pl := range payloads() {
 		for vi, vl := range vlans {
@@ -1130,9 +1130,9 @@ func genEthernet(c *Ctx) {
 	}
 	// address lengths other than 6
 	for _, n := range []int{0, 1, 5, 7, 8, 14, 20} {
-		c.encD("p.Ethernet", tEth(0, seqBytes(n, 1), src, vlans[0], 0x0800, "~"))
-		c.encD("p.Ethernet", tEth(0, dst, seqBytes(n, 1), vlans[1], 0x0800, tBuf([]byte{1, 2, 3})))
-		c.encD("p.Ethernet", tEth(0, seqBytes(n, 1), seqBytes(n, 0x80), vlans[0], 0x0800, tBuf(seqBytes(30, 3))))
+		c.encD("p.Ethernet", tEth(0, protoSeqBytes(n, 1), src, vlans[0], 0x0800, "~"))
+		c.encD("p.Ethernet", tEth(0, dst, protoSeqBytes(n, 1), vlans[1], 0x0800, tBuf([]byte{1, 2, 3})))
+		c.encD("p.Ethernet", tEth(0, protoSeqBytes(n, 1), protoSeqBytes(n, 0x80), vlans[0], 0x0800, tBuf(protoSeqBytes(30, 3))))
 	}
 	// VID lane against the tag-presence test; PCP/DEI without VID are dropped
 	for _, vid := range []int{0, 1, 2, 0x0fff, 0x1000, 0x2000, 0xf000, 0xffff} {
@@ -1170,10 +1170,10 @@ func genDHCP(c *Ctx) {
 	// option helpers
 	for _, tag := range []int{0, 1, 53, 61, 254, 255} {
 		for _, n := range []int{0, 1, 2, 4, 252, 253, 254, 255, 300} {
-			d := xs(seqBytes(n, 1))
+			d := xs(protoSeqBytes(n, 1))
 			c.run("fn", "p.DHCPNewOption", tag, d)
-			c.run("fn", "p.DHCPMarshalOption", tDOpt(tag, seqBytes(n, 1)))
-			c.run("fn", "p.DHCPWriteOption", "u.Buffer(x0102)", tDOpt(tag, seqBytes(n, 1)))
+			c.run("fn", "p.DHCPMarshalOption", tDOpt(tag, protoSeqBytes(n, 1)))
+			c.run("fn", "p.DHCPWriteOption", "u.Buffer(x0102)", tDOpt(tag, protoSeqBytes(n, 1)))
 			c.run("fn", "p.DHCPStringOption", tag, d)
 			c.dumpProg(fmt.Sprintf("o=p.DHCPNewOption(%d,%s);n=$o.Len()", tag, d), "n")
 		}
@@ -1199,7 +1199,7 @@ func genDHCP(c *Ctx) {
 	for _, in := range [][]byte{
 		nil, {0}, {255}, {0, 0, 0}, {53, 1, 1}, {53, 1, 1, 255}, {53, 1, 1, 255, 61, 1, 9}, {0, 53, 1, 2, 0, 255, 0}, {53, 0}, {53, 0, 54, 0, 255},
 		{61, 6, 1, 2, 3, 4, 5, 6, 55, 3, 1, 3, 6}, {53}, {53, 1, 1, 61}, {1, 4, 255, 255, 255, 0, 255}, {12, 2, 255, 0},
-		cat([]byte{43, 253}, seqBytes(253, 1), []byte{255}), cat([]byte{43, 255}, seqBytes(255, 1)),
+		cat([]byte{43, 253}, protoSeqBytes(253, 1), []byte{255}), cat([]byte{43, 255}, protoSeqBytes(255, 1)),
 	} {
 		c.run("fn", "p.DHCPParseOptions", xs(in))
 	}
@@ -1215,18 +1215,18 @@ func genDHCP(c *Ctx) {
 	}
 	for _, f := range []string{"p.NewDHCPDiscover", "p.NewDHCPOffer", "p.NewDHCPRequest", "p.NewDHCPAck", "p.NewDHCPNak"} {
 		for _, n := range []int{0, 1, 6, 8, 16, 17, 20, 255, 256, 300} {
-			c.run("fn", f, 7, xs(seqBytes(n, 0x31)))
+			c.run("fn", f, 7, xs(protoSeqBytes(n, 0x31)))
 			if n == 6 || n == 17 || n == 256 {
-				c.dumpProg(fmt.Sprintf("d=%s(9,%s);n=$d.Len()", f, xs(seqBytes(n, 0x31))), "n")
-				c.run("prog", fmt.Sprintf("d=%s(9,%s);r=obs.Read($d,600);!r", f, xs(seqBytes(n, 0x31))))
+				c.dumpProg(fmt.Sprintf("d=%s(9,%s);n=$d.Len()", f, xs(protoSeqBytes(n, 0x31))), "n")
+				c.run("prog", fmt.Sprintf("d=%s(9,%s);r=obs.Read($d,600);!r", f, xs(protoSeqBytes(n, 0x31))))
 			}
 		}
 	}
 	// Len / Read of literal values: option counts 0,1,2,3,7; PAD/END anywhere; oversize option; nil option
 	optSets := [][]string{
-		nil, {tDOpt(53, []byte{1})}, {tDOpt(53, []byte{1}), tDOpt(255, nil)}, {tDOpt(53, []byte{3}), tDOpt(61, seqBytes(7, 1)), tDOpt(55, []byte{1, 3, 6})},
+		nil, {tDOpt(53, []byte{1})}, {tDOpt(53, []byte{1}), tDOpt(255, nil)}, {tDOpt(53, []byte{3}), tDOpt(61, protoSeqBytes(7, 1)), tDOpt(55, []byte{1, 3, 6})},
 		{tDOpt(0, nil), tDOpt(0, nil), tDOpt(53, []byte{1}), tDOpt(255, nil), tDOpt(12, []byte("host")), tDOpt(0, []byte{1, 2}), tDOpt(255, []byte{9})},
-		{tDOpt(255, nil), tDOpt(53, []byte{1})}, {tDOpt(43, seqBytes(253, 0))}, {tDOpt(43, seqBytes(254, 0))}, {tDOpt(53, []byte{1}), tDOpt(43, seqBytes(300, 0)), tDOpt(255, nil)},
+		{tDOpt(255, nil), tDOpt(53, []byte{1})}, {tDOpt(43, protoSeqBytes(253, 0))}, {tDOpt(43, protoSeqBytes(254, 0))}, {tDOpt(53, []byte{1}), tDOpt(43, protoSeqBytes(300, 0)), tDOpt(255, nil)},
 		{"~"}, {tDOpt(53, []byte{1}), "~"},
 	}
 	for _, os := range optSets {
@@ -1254,11 +1254,11 @@ func genDHCP(c *Ctx) {
 	}
 	for _, n := range []int{0, 1, 6, 15, 16, 17, 32} {
 		d := baseDHCP()
-		d.hw, d.hl = seqBytes(n, 0xa0), n
+		d.hw, d.hl = protoSeqBytes(n, 0xa0), n
 		c.run("prog", "d="+d.term()+";r=obs.Read($d,400);!r")
 	}
 	{
-		d := dhcp{op: 255, ht: 254, hl: 253, ho: 252, xid: 0xfffefdfc, secs: 0xfbfa, flags: 0xf9f8, sname: seqBytes(64, 0x80), file: seqBytes(128, 0x40)}
+		d := dhcp{op: 255, ht: 254, hl: 253, ho: 252, xid: 0xfffefdfc, secs: 0xfbfa, flags: 0xf9f8, sname: protoSeqBytes(64, 0x80), file: protoSeqBytes(128, 0x40)}
 		c.run("prog", "d="+d.term()+";r=obs.Read($d,400);!r")
 		c.dumpProg("d="+d.term(), "d")
 	}
@@ -1281,7 +1281,7 @@ func genDHCP(c *Ctx) {
 	for _, opts := range [][]byte{
 		nil, {0}, {255}, {0, 0, 0, 0, 0, 0, 0}, {53}, {53, 0}, {53, 1}, {53, 1, 1}, {53, 2, 1}, {53, 255, 1, 2, 3}, {0, 53, 1, 5, 0, 255, 1, 2, 3},
 		{255, 53, 1, 1}, {53, 1, 1, 54}, {53, 1, 1, 54, 4, 1, 2, 3}, {53, 1, 1, 54, 4, 1, 2, 3, 4}, {53, 1, 1, 54, 4, 1, 2, 3, 4, 0},
-		cat([]byte{43, 255}, seqBytes(255, 1)), cat([]byte{43, 255}, seqBytes(254, 1)), cat([]byte{43, 253}, seqBytes(253, 1), []byte{12, 0, 255}),
+		cat([]byte{43, 255}, protoSeqBytes(255, 1)), cat([]byte{43, 255}, protoSeqBytes(254, 1)), cat([]byte{43, 253}, protoSeqBytes(253, 1), []byte{12, 0, 255}),
 		{1, 4, 255, 255, 255, 0, 3, 4, 10, 0, 0, 1, 6, 8, 8, 8, 8, 8, 8, 8, 4, 4, 51, 4, 0, 1, 0x51, 0x80, 255},
 	} {
 		wr(dhcpWire(6, 0x63825363, opts))
@@ -1314,7 +1314,7 @@ func genLLDP(c *Ctx) {
 			}
 		}
 		for _, n := range counts {
-			t := "t=" + tChassis(kind, 1, n+1, 4, seqBytes(n, 0x61))
+			t := "t=" + tChassis(kind, 1, n+1, 4, protoSeqBytes(n, 0x61))
 			for _, bl := range []int{0, 1, 2, 3, 4, n + 2, n + 3, n + 4, 40} {
 				c.run("prog", t+fmt.Sprintf(";r=obs.Read($t,%d);!r", bl))
 			}
@@ -1330,17 +1330,17 @@ func genLLDP(c *Ctx) {
 		for _, o := range []int{0, 0xffff} {
 			for ty := 0; ty < 128; ty++ {
 				w := ty<<9 | o&0x1ff
-				wrT(cat(be16b(w), seqBytes(1+w&0x1ff, 0x21)))
+				wrT(cat(be16b(w), protoSeqBytes(1+w&0x1ff, 0x21)))
 			}
 			for _, ln := range fieldSample(9, 9) {
 				w := ln | o&0xfe00
-				wrT(cat(be16b(w), seqBytes(1+ln, 0x21)))
+				wrT(cat(be16b(w), protoSeqBytes(1+ln, 0x21)))
 			}
 		}
 		for _, ln := range []int{0, 1, 2, 7, 255, 256, 510, 511} {
 			for _, have := range []int{0, 1, ln - 1, ln, ln + 1, ln + 2, ln + 9} {
 				if have >= 0 {
-					wr(cat(be16b(1<<9|ln), seqBytes(have, 0x41)))
+					wr(cat(be16b(1<<9|ln), protoSeqBytes(have, 0x41)))
 				}
 			}
 		}
@@ -1366,7 +1366,7 @@ func genLLDP(c *Ctx) {
 	}
 	// LLDP: Read writes all three TLVs to the START of b (and reads Chassis twice); Write parses Chassis, Port, Chassis
 	lldp := func(cn, pn int) string {
-		return "p.LLDP(" + tChassis("ChassisTLV", 1, cn+1, 4, seqBytes(cn, 0xc1)) + "," + tChassis("PortTLV", 2, pn+1, 5, seqBytes(pn, 0xe1)) + "," + tTTL(3, 2, 120) + ")"
+		return "p.LLDP(" + tChassis("ChassisTLV", 1, cn+1, 4, protoSeqBytes(cn, 0xc1)) + "," + tChassis("PortTLV", 2, pn+1, 5, protoSeqBytes(pn, 0xe1)) + "," + tTTL(3, 2, 120) + ")"
 	}
 	for _, cn := range []int{0, 1, 6} {
 		for _, pn := range []int{0, 2, 9} {
@@ -1385,7 +1385,7 @@ func genLLDP(c *Ctx) {
 		cat(ch, pt, tt, end), cat(ch, pt, tt), cat(ch, pt), ch, cat(ch, pt, ch), cat(ch, pt, []byte{2, 1, 7}), cat(ch, pt, []byte{2, 0, 7}),
 		cat(ch, pt, []byte{2}), cat(ch, pt, []byte{2, 9}), cat(ch, pt, []byte{2, 9, 1}), cat(ch, []byte{4}), cat(ch, []byte{4, 3}), cat(ch, []byte{4, 3, 5}),
 		ch[:1], ch[:2], ch[:3], ch[:8], nil, cat([]byte{2, 0, 4}, pt, tt), cat([]byte{2, 0, 4}, []byte{4, 0, 5}, []byte{6, 0, 9}),
-		cat([]byte{3, 0xff, 4}, seqBytes(511, 0), pt, tt),
+		cat([]byte{3, 0xff, 4}, protoSeqBytes(511, 0), pt, tt),
 	}
 	// the same TLVs with the length counted the way this code does (without the subtype byte)
 	ch2 := []byte{2, 6, 4, 1, 2, 3, 4, 5, 6}
@@ -1408,15 +1408,15 @@ func genCtors(c *Ctx) {
 		c.run("fn", f)
 		c.run("prog", "v="+f+"();!v")
 		for _, n := range []int{0, 1, 2, 3, 4, 7, 8, 12, 13, 14, 18, 19, 20, 39, 40, 44} {
-			c.decCase("decc", f, seqBytes(n, 0x45), 0)
-			c.decCase("decc", f, seqBytes(n, 0x45), 24)
+			c.decCase("decc", f, protoSeqBytes(n, 0x45), 0)
+			c.decCase("decc", f, protoSeqBytes(n, 0x45), 24)
 		}
 	}
 	for _, opt := range []int{0, 1, 2, 3, 255, 65536 + 1} {
 		c.run("fn", "p.NewARP", opt)
 	}
 	for _, n := range []int{0, 1, 5, 300} {
-		c.run("fn", "u.NewBuffer", xs(seqBytes(n, 1)))
+		c.run("fn", "u.NewBuffer", xs(protoSeqBytes(n, 1)))
 	}
 	for _, g := range ipVariants() {
 		for _, f := range []string{"p.NewIGMPv1Query", "p.NewIGMPv1Report", "p.NewIGMPv2Report", "p.NewIGMPv2Leave"} {
